@@ -1299,11 +1299,16 @@ def make_case(rng, kind, **kw):
                 ps["name"] = f"Scaffold_{n+1}"
         return {"kind": "tagged", "input": inp, "ptx": ptx, "bpt": bpt}
     small = kw.get("small", rng.random() < 0.3)
-    inp = rand_input(rng, revp=revp, hap_names=(kind == "hapnames"), maxlen=(40 if small else 3000),
+    inp = rand_input(rng, revp=revp, hap_names=(kind in ("hapnames", "hapuniform")), maxlen=(40 if small else 3000),
                      zero_strand=kw.get("zero_strand", 0.0), nscaf=kw.get("nscaf", 4),
                      dup_names=(0.35 if kind == "dupnames" else 0.0), double_gaps=kw.get("double_gaps", 0.06))
     if kind == "dupnames":
         revp = max(revp, 0.3)
+    if kind == "hapuniform":
+        # every input scaffold name carries ONE AND THE SAME haplotype (the hypothesis of `script_remap_ok_uniform`)
+        h = rng.choice(["HAP1", "HAP2", "mat", "A"])
+        for j, s_ in enumerate(inp):
+            s_["name"] = f"{h}_SCAFFOLD_{j+1}"
     ptx, script = pretext_script(rng, inp, bpt, paint=kw.get("paint", 0.7))
     if kind == "dupnames":
         kind = "script"
